@@ -91,7 +91,7 @@ theorem tryRewrite_indep {I O : Type} {spec : RuleSpec} {b : RuleBeh I O}
 
 /-- stashes of all installed rules agree on their `__init__`-only fields -/
 def AgreeAll {I O : Type} (w : World I O) (σ σ' : Stashes) : Prop :=
-  ∀ r p, w.rules[r]? = some p → AgreeOn p.1.consts (σ r) (σ' r)
+  ∀ r p, w.rules[r]? = some p → AgreeOn p.1.consts (σ (w.owner r)) (σ' (w.owner r))
 
 theorem AgreeAll.refl {I O : Type} (w : World I O) (σ : Stashes) : AgreeAll w σ σ :=
   fun _ _ _ => AgreeOn.refl _ _
@@ -103,15 +103,14 @@ theorem AgreeAll.symm {I O : Type} {w : World I O} {σ σ' : Stashes}
 
 theorem agreeAll_set {I O : Type} {w : World I O} (hw : w.Ok) (σ : Stashes) (r : Nat)
     (p : RuleSpec × RuleBeh I O) (hp : w.rules[r]? = some p) (i : I) :
-    AgreeAll w σ (σ.set r (tryRewrite p.2 (σ r) i).1) := by
+    AgreeAll w σ (σ.set (w.owner r) (tryRewrite p.2 (σ (w.owner r)) i).1) := by
   intro k q hq
   unfold Stashes.set
-  by_cases hk : k = r
-  · subst hk
-    simp only [if_true]
-    rw [hp] at hq
-    cases hq
-    exact tryRewrite_consts (hw p (List.mem_of_getElem? hp)).2 _ _
+  by_cases hk : w.owner k = w.owner r
+  · simp only [hk, if_true]
+    have hc : q.1.consts = p.1.consts := hw.2 k r q p hq hp hk
+    rw [hc]
+    exact tryRewrite_consts (hw.1 p (List.mem_of_getElem? hp)).2 _ _
   · simp only [hk, if_false]
     exact AgreeOn.refl _ _
 
@@ -147,8 +146,8 @@ theorem runRewrite_indep {I O : Type} {w : World I O} (hw : w.Ok) (strat : List 
     · rename_i r i _
       split
       · rename_i p hp
-        have hp' := hw p (List.mem_of_getElem? hp)
-        have hout := tryRewrite_indep hp'.1 hp'.2 (σ r) (σ' r) i (hag r p hp)
+        have hp' := hw.1 p (List.mem_of_getElem? hp)
+        have hout := tryRewrite_indep hp'.1 hp'.2 (σ (w.owner r)) (σ' (w.owner r)) i (hag r p hp)
         simp only []
         rw [hout]
         apply ih
@@ -217,6 +216,41 @@ theorem translate_eval (g : Globals) (x : Val) (e : SExp) : (translate g e).eval
     cases g.lookup n <;> rfl
   | add a b iha ihb => simp only [translate, GExp.eval, SExp.evalPy, iha, ihb]
   | mul a b iha ihb => simp only [translate, GExp.eval, SExp.evalPy, iha, ihb]
+
+theorem translateR_copy_frozen (g : RGlobals) (cells cells' : Cells) (e : SExp) :
+    (translateR true g cells e).toProto cells' = (translateR true g cells e).toProto cells := by
+  induction e with
+  | x => rfl
+  | glob n =>
+    simp only [translateR]
+    cases g.lookup n with
+    | none => rfl
+    | some v => cases v <;> rfl
+  | add a b iha ihb => simp only [translateR, RExp.toProto, iha, ihb]
+  | mul a b iha ihb => simp only [translateR, RExp.toProto, iha, ihb]
+
+theorem translateR_noshared_frozen (g : RGlobals) (cells cells' : Cells) (e : SExp)
+    (h : NoSharedMutablePayload g e) :
+    (translateR false g cells e).toProto cells' = (translateR false g cells e).toProto cells := by
+  induction e with
+  | x => rfl
+  | glob n =>
+    have hn := h n (by simp [SExp.globalsOf])
+    simp only [translateR]
+    cases hl : g.lookup n with
+    | none => rfl
+    | some v =>
+      cases v with
+      | imm v => rfl
+      | ref c => exact absurd hl (hn c)
+  | add a b iha ihb =>
+    have ha : NoSharedMutablePayload g a := fun n hn => h n (by simp [SExp.globalsOf, hn])
+    have hb : NoSharedMutablePayload g b := fun n hn => h n (by simp [SExp.globalsOf, hn])
+    simp only [translateR, RExp.toProto, iha ha, ihb hb]
+  | mul a b iha ihb =>
+    have ha : NoSharedMutablePayload g a := fun n hn => h n (by simp [SExp.globalsOf, hn])
+    have hb : NoSharedMutablePayload g b := fun n hn => h n (by simp [SExp.globalsOf, hn])
+    simp only [translateR, RExp.toProto, iha ha, ihb hb]
 
 theorem iterProto_spec (n : Nat) (f : OnnxFn) :
     (iterProto n f).2 = f ∧ ∀ p, p ∈ (iterProto n f).1 → p = f.ir := by
